@@ -462,6 +462,7 @@ def oracle(tr):
     stop_req = False
     in_scope = True
     socks = {}             # k -> "open" | "closed" | "handed" | "connclosed"
+    failed_socks = set()   # attempts whose SO_ERROR was read as non-zero
     up, down = set(), set()
     cycle_ups = 0
     cycle_retry = 0        # retries scheduled so far in this cycle
@@ -527,6 +528,15 @@ def oracle(tr):
             pending_start = False
         # ---- events of this step
         attempts_here = 0
+        # SO_ERROR read for the attempt in progress (`< soerr v`: what getsockopt returned): a non-zero value means the
+        # attempt failed - that socket must be closed (and retried), never reported as a connection, however often and by
+        # whichever handler the value is read (reading SO_ERROR clears it: a second read of the same socket returns 0)
+        for x in s["env"]:
+            xw = x.split()
+            if xw[:1] == ["soerr"] and len(xw) > 1 and xw[1] not in ("0",):
+                for j, v in socks.items():
+                    if v == "open":
+                        failed_socks.add(j)
         for e in evs:
             t = e.split()
             if e.startswith("sock created"):
@@ -564,6 +574,9 @@ def oracle(tr):
                 k = int(t[2])
                 if socks.get(k) != "open":
                     fail("socket-handed-over-%s" % socks.get(k, "unknown"), i, e)
+                if k in failed_socks:
+                    fail("failed-attempt-handed-over", i, "socket %d, whose SO_ERROR said the attempt had failed, is handed over as an "
+                         "established connection (and no retry is scheduled)" % k)
                 socks[k] = "handed"
             elif e.startswith("conn closed"):
                 k = int(t[2])
